@@ -333,3 +333,20 @@ SPECS["C04"] = {
                  "non-trivial = a multi-update batch overlapping a read of its keys in real time"},
     ],
 }
+
+for _p, _rule in (("C19", "histories (C01 generator weighted to flushes, per-level manual compactions, held snapshots) interleaved with `repair v` operations: the database is closed, the durable contents are computed "
+                          "independently (reference table reader over every surviving table, reference log+batch decoder over every surviving log, newest sequence per key wins), metadata is lost or damaged in one of 6 ways "
+                          "(delete CURRENT / MANIFEST / both, truncate MANIFEST, CURRENT naming a missing file, intact), ldb_repair + ldb_open run, and every key is read by ldb_get and by scans in both directions; the history then "
+                          "continues (new writes must win, new files must take numbers above everything present at repair time); non-trivial = a repaired state in which some user key had versions in >=2 surviving files"),
+                  ("C20", "histories interleaved with lifecycle operations: backup (opened at once as an independent database, compared with the model, written to, re-compared at the end after further source writes), copy (refused while "
+                          "open, byte-identical source and equal contents when closed), destroy (foreign files and a foreign sub-directory must survive byte-identical, every database file must go), lockprobe (second ldb_open from the same "
+                          "process and from a forked child must fail, first handle keeps working), badopen (error_if_exists / comparator mismatch / missing without create must fail, leave all files byte-identical, and a correct open must "
+                          "succeed afterwards); non-trivial = a backup taken with a non-empty write buffer and >=1 table, followed by source writes and a later re-check of the backup")):
+    SPECS[_p] = {
+        "level": "exploration", "quick_budget": 50, "thorough_budget": 600, "assumptions": COMMON_ASSUME, "run": generic_run,
+        "parts": [
+            {"name": "asan", "engine": "hist", "flavour": "asan", "kind": _p, "nt": _p + ".nt", "rule": _rule, "quick_count": 100000, "thorough_count": 10000000, "budget_share": 0.4},
+            {"name": "plain", "engine": "hist", "flavour": "plain", "kind": _p, "nt": _p + ".nt", "rule": "same without sanitizers (higher case rate)", "quick_count": 100000, "thorough_count": 10000000,
+             "budget_share": 0.6, "seed_offset": 7777},
+        ],
+    }
